@@ -60,7 +60,7 @@ def value_of(site, kind, var):
 
 def run(c):
     thorough = c.tier == "thorough"
-    c.go2coq_sources = ["filters.go", "filters_types.go", "filters_state.go"]   # private translator build: another family's generator cannot break this check
+    c.go2coq_sources = ["filters.go", "filters_types.go", "filters_state.go", "filters_helpers.go"]   # private translator build: another family's generator cannot break this check
     c.rule = ("random Where() trees (depth<=5) over 12 atomic predicates (one of them a custom filter that panics) and "
               "comparisons of Line/Type.Size/Value.Int()/Text against constants (either side) and other captures, each "
               "run on 40 probe-site shapes; a case is distinct by its DSL text, non-trivial when it accepts some and "
